@@ -86,7 +86,7 @@ func rang(left, right string) (string, error) {
 	}
 
 	stripped := right[1 : len(right)-1]
-	rangeSlice := strings.Split(stripped, ",")
+	rangeSlice := splitRange(stripped)
 
 	if len(rangeSlice) != 2 {
 		return "", fmt.Errorf("the BETWEEN operator needs a two item list in the right hand side, have %s", right)
@@ -180,7 +180,7 @@ func rangParam(left, right string, params []any) (string, error) {
 	}
 
 	stripped := right[1 : len(right)-1]
-	rangeSlice := strings.Split(stripped, ",")
+	rangeSlice := splitRange(stripped)
 
 	if len(rangeSlice) != 2 {
 		return "", fmt.Errorf("the BETWEEN operator needs a two item list in the right hand side, have %s", right)
@@ -311,6 +311,25 @@ func rangParam(left, right string, params []any) (string, error) {
 			strings.Trim(rangeSlice[1], " "),
 		),
 		nil
+}
+
+// splitRange splits the serialized boundaries of a range at the commas that are not inside
+// a quoted string so string boundaries are allowed to contain commas.
+func splitRange(in string) (out []string) {
+	inQuote := false
+	start := 0
+	for i := 0; i < len(in); i++ {
+		switch in[i] {
+		case '\'':
+			inQuote = !inQuote
+		case ',':
+			if !inQuote {
+				out = append(out, in[start:i])
+				start = i + 1
+			}
+		}
+	}
+	return append(out, in[start:])
 }
 
 func basicCompound(op expr.Operator) RenderFN {
